@@ -268,9 +268,15 @@ func ruleShortenSem(e *Env, rule string) {
 			}
 			return set, anyOne, true
 		}
+		// a vector read as a signed number whose sign bit is not known to be clear (int64(s)) is not "> 0" just because it
+		// is not zero: such a comparison is left undecided
+		signedOpen := func(v pred.Val) bool {
+			bv, ok := v.(pred.Bits)
+			return ok && bv.Signed && len(bv.B) > 0 && bv.B[len(bv.B)-1].K != '0'
+		}
 		fixed := func(a, b pred.Val) (int, bool, bool) {
 			c, isC := b.(pred.Const)
-			if !isC || c.V == nil || c.V.ExactString() != "0" {
+			if !isC || c.V == nil || c.V.ExactString() != "0" || signedOpen(a) {
 				return 0, false, false
 			}
 			set, anyOne, ok := symSet(a)
@@ -293,7 +299,7 @@ func ruleShortenSem(e *Env, rule string) {
 		}
 		keyOf := func(a, b pred.Val) (string, bool) {
 			c, isC := b.(pred.Const)
-			if !isC || c.V == nil || c.V.ExactString() != "0" {
+			if !isC || c.V == nil || c.V.ExactString() != "0" || signedOpen(a) {
 				return "", false
 			}
 			set, _, ok := symSet(a)
